@@ -382,7 +382,10 @@ Qed.
 
 Lemma mark_saved_if x : x = slot_if (sl_instr x) (sl_addr x) ->
   mark_saved (Some x) = Some (saved_if (sl_instr x) (sl_addr x)).
-Proof. intros E. destruct x. cbn [sl_instr sl_addr] in *. inversion E. reflexivity. Qed.
+Proof.
+  intros E. destruct x as [i a f1 f2 f3 f4 f5 f6 f7 f8 f9 f10 f11 f12 f13 f14 f15].
+  cbn [sl_instr sl_addr] in *. inversion E. reflexivity.
+Qed.
 
 Lemma has_stall_id x n : idrel x n -> has_stall n = true -> exists y z, x = Some y /\ n = Some z /\
   sl_instr z = sl_instr y /\ sl_addr z = sl_addr y.
@@ -467,4 +470,312 @@ Proof.
         split; [rewrite Ho0; eapply no101_shift; eauto|]. split; [rewrite Ho0; exact N1|exact N2].
 Qed.
 
+Lemma run_stall1_ok hz sv0 l0 l1 l2 l3 s0 next s f :
+  match sv0 with Some m => real (prog (im s0)) m | None => True end ->
+  L2ok (prog (im s0)) l2 -> L3ok (prog (im s0)) l3 ->
+  run_stall1 hz sv0 l0 l1 l2 l3 s0 = (next, s, f) ->
+  pc s = pc s0 /\ im s = im s0 /\
+  (f = None -> exists n1 n3 n4, next = [l0; n1; None; n3; n4] /\
+     L1ok (prog (im s0)) n1 /\ L3ok (prog (im s0)) n3 /\ L4ok (prog (im s0)) n4 /\
+     idrel sv0 n1 /\ nonempty n3 = nonempty l2 /\ n4 = option_map wb_slot l3).
+Proof.
+  intros R0 H2 H3 Hr. unfold run_stall1 in Hr.
+  destruct (wb_on l3 s0) as [[n4 s2] e4] eqn:HWB.
+  pose proof (wb_on_law _ _ _ _ _ HWB) as (K2 & _). apply keeps_pc_im in K2. destruct K2 as [Hpc2 Him2].
+  destruct e4 as [e|].
+  { inv Hr. repeat split; try assumption. intros E; exfalso; exact (fault_at_not_none _ _ E). }
+  apply wb_on_shape in HWB. subst n4. destruct (wb_slot_ok _ _ H3) as [H4' _].
+  destruct (mem_on l2 s2) as [[n3 s4] e3] eqn:HMEM.
+  pose proof (mem_on_law _ _ _ _ _ HMEM) as (K4 & _). apply keeps_pc_im in K4. destruct K4 as [Hpc4 Him4].
+  destruct e3 as [e|].
+  { inv Hr. rewrite Hpc4, Him4. repeat split; try assumption. intros E; exfalso; exact (fault_at_not_none _ _ E). }
+  destruct (mem_on_ok _ _ _ _ _ H2 HMEM) as (H3' & Ho3).
+  destruct (id_on_ok (prog (im s0)) hz sv0 l1 l2 s2 R0) as (H1' & Ho1 & Hid).
+  inv Hr. rewrite Hpc4, Him4. split; [assumption|]. split; [assumption|]. intros _.
+  do 3 eexists. split; [reflexivity|]. repeat split; assumption.
+Qed.
+
+Lemma run_stall2_ok hz sv0 sv1 l0 l1 l2 l3 s0 next s f :
+  match sv0 with Some m => real (prog (im s0)) m | None => True end ->
+  match sv1 with Some m => real (prog (im s0)) m | None => True end ->
+  L3ok (prog (im s0)) l3 ->
+  run_stall2 hz sv0 sv1 l0 l1 l2 l3 s0 = (next, s, f) ->
+  pc s = pc s0 /\ im s = im s0 /\
+  (f = None -> exists n1 n2 n4, next = [l0; n1; n2; None; n4] /\
+     L1ok (prog (im s0)) n1 /\ L2ok (prog (im s0)) n2 /\ L4ok (prog (im s0)) n4 /\
+     idrel sv0 n1 /\ exrel l2 l3 sv1 n2 /\ nonempty n2 = nonempty sv1 /\ n4 = option_map wb_slot l3).
+Proof.
+  intros R0 R1 H3 Hr. unfold run_stall2 in Hr.
+  destruct (wb_on l3 s0) as [[n4 s2] e4] eqn:HWB.
+  pose proof (wb_on_law _ _ _ _ _ HWB) as (K2 & _). apply keeps_pc_im in K2. destruct K2 as [Hpc2 Him2].
+  destruct e4 as [e|].
+  { inv Hr. repeat split; try assumption. intros E; exfalso; exact (fault_at_not_none _ _ E). }
+  apply wb_on_shape in HWB. subst n4. destruct (wb_slot_ok _ _ H3) as [H4' _].
+  destruct (ex_on sv1 l2 l3 s2) as [[n2 s3] e2] eqn:HEX.
+  pose proof (ex_on_law _ _ _ _ _ _ _ HEX) as (K3 & _). apply keeps_pc_im in K3. destruct K3 as [Hpc3 Him3].
+  destruct e2 as [e|].
+  { inv Hr. rewrite Hpc3, Him3. repeat split; try assumption. intros E; exfalso; exact (fault_at_not_none _ _ E). }
+  destruct (ex_on_ok _ _ _ _ _ _ _ R1 HEX) as (H2' & Ho2 & Hex).
+  destruct (id_on_ok (prog (im s0)) hz sv0 l1 l2 s2 R0) as (H1' & Ho1 & Hid).
+  inv Hr. rewrite Hpc3, Him3. split; [assumption|]. split; [assumption|]. intros _.
+  do 3 eexists. split; [reflexivity|]. repeat split; assumption.
+Qed.
+
+Lemma shape_step_stall1 p d : Shape p -> stalled p = Some (1, d) -> Shape (fst (pipe_step p)).
+Proof.
+  intros Sh Hs. destruct (shape_elim _ Sh) as (l0 & l1 & l2 & l3 & l4 & Hl & Him & H0 & H1 & H2 & H3 & H4 & Hm).
+  rewrite Hs in Hm. unfold ModeInv in Hm. destruct (saved p) as [svl|] eqn:Hsv; [|contradiction].
+  destruct Hm as [Hd [(_ & m & x1 & -> & -> & Em & Hi & Ha & N1 & Hd1)|(Hk & _)]]; [|discriminate Hk].
+  rewrite (pipe_step_stall1 p _ _ _ _ _ d Hl Hs).
+  assert (Hsv0 : sv_at p 0 = Some m) by (unfold sv_at; rewrite Hsv; reflexivity). rewrite Hsv0.
+  destruct (run_stall1 (hazards p) (Some m) l0 (Some x1) l2 l3 (bumped (pst p))) as [[next s] f] eqn:Hr.
+  assert (Rm : real (prog (im (pst p))) m).
+  { destruct H1 as [Rx _]. unfold real in *. rewrite <- Ha, <- Hi. exact Rx. }
+  destruct (run_stall1_ok (hazards p) (Some m) l0 (Some x1) l2 l3 (bumped (pst p)) next s f Rm H2 H3 Hr)
+    as (Hpc & Hims & Hok).
+  change (im (bumped (pst p))) with (im (pst p)) in *. change (pc (bumped (pst p))) with (pc (pst p)) in *.
+  destruct f as [f|]; cbn [finish fst].
+  { apply shape_faulted; rewrite ?Hims, ?Hpc; auto. }
+  destruct (Hok eq_refl) as (n1 & n3 & n4 & -> & H1' & H3' & H4' & Hid & Ho3 & _). clear Hok.
+  unfold post. rewrite Hs, Hsv.
+  pose proof (L0ok_flags _ _ H0) as [Hs0 Hf0]. pose proof (L3ok_flags _ _ H3') as Hs3.
+  pose proof (L4ok_flags _ _ H4') as Hs4.
+  unfold idrel in Hid. destruct n1 as [z|]; [|contradiction]. destruct Hid as [Hiz Haz].
+  rewrite <- Hims in H0, H1', H3', H4', Him.
+  destruct Hd as [-> | ->].
+  - rewrite (stall_part_first _ _ _ _ _ (new_stall_ignored_1 _ _ _ _ _ Hs0 Hs3 Hs4)).
+    destruct (first_flush [l0; Some z; None; n3; n4]) as [[i a]|] eqn:Hff.
+    + eapply shape_flush; try eassumption; [exact Logic.I|left; reflexivity].
+    + rewrite flush_part_none by exact Hff.
+      eapply shape_intro; [reflexivity|..]; cbn [pst stalled saved]; try assumption; [exact Logic.I|].
+      rewrite Hims, Hpc. unfold ModeInv. split; [right; reflexivity|]. left. split; [reflexivity|].
+      exists m, z. repeat split; try assumption.
+  - rewrite (stall_part_last _ _ _ _ _ (new_stall_ignored_1 _ _ _ _ _ Hs0 Hs3 Hs4)).
+    destruct (first_flush [l0; Some z; None; n3; n4]) as [[i a]|] eqn:Hff.
+    + eapply shape_flush; try eassumption; [exact Logic.I|reflexivity].
+    + rewrite flush_part_none by exact Hff.
+      eapply shape_intro; [reflexivity|..]; cbn [pst stalled saved]; try assumption; [exact Logic.I|].
+      rewrite Hims, Hpc. unfold ModeInv. cbn [nonempty]. split; [exact N1|].
+      split; [apply no101_c0|]. rewrite Ho3, (Hd1 eq_refl). apply no101_c0.
+Qed.
+
+Lemma shape_step_stall2 p d : Shape p -> stalled p = Some (2, d) -> Shape (fst (pipe_step p)).
+Proof.
+  intros Sh Hs. destruct (shape_elim _ Sh) as (l0 & l1 & l2 & l3 & l4 & Hl & Him & H0 & H1 & H2 & H3 & H4 & Hm).
+  rewrite Hs in Hm. unfold ModeInv in Hm. destruct (saved p) as [svl|] eqn:Hsv; [|contradiction].
+  destruct Hm as [Hd [(Hk & _)|(_ & m0 & y1 & x2 & -> & Sk0 & -> & Sk1 & N1 & N2 & Hd2 & Hd1)]]; [discriminate Hk|].
+  rewrite (pipe_step_stall2 p _ _ _ _ _ d Hl Hs).
+  assert (Hsv0 : sv_at p 0 = m0) by (unfold sv_at; rewrite Hsv; reflexivity).
+  assert (Hsv1 : sv_at p 1 = Some y1) by (unfold sv_at; rewrite Hsv; reflexivity).
+  rewrite Hsv0, Hsv1.
+  destruct (run_stall2 (hazards p) m0 (Some y1) l0 l1 (Some x2) l3 (bumped (pst p))) as [[next s] f] eqn:Hr.
+  assert (R0 : match m0 with Some m => real (prog (im (pst p))) m | None => True end).
+  { unfold skid0 in Sk0. destruct m0 as [m|]; [|exact Logic.I]. destruct l1 as [x|]; [|contradiction].
+    destruct Sk0 as (_ & Hi & Ha). destruct H1 as [Rx _]. unfold real in *. rewrite <- Ha, <- Hi. exact Rx. }
+  pose proof Sk1 as (Iy & Sy & Fy & Ey & Ix & Ax & _).
+  assert (R1 : real (prog (im (pst p))) y1).
+  { destruct H2 as [Rx _]. unfold real in *. rewrite <- Ax, Iy, <- Ix. exact Rx. }
+  destruct (run_stall2_ok (hazards p) m0 (Some y1) l0 l1 (Some x2) l3 (bumped (pst p)) next s f R0 R1 H3 Hr)
+    as (Hpc & Hims & Hok).
+  change (im (bumped (pst p))) with (im (pst p)) in *. change (pc (bumped (pst p))) with (pc (pst p)) in *.
+  destruct f as [f|]; cbn [finish fst].
+  { apply shape_faulted; rewrite ?Hims, ?Hpc; auto. }
+  destruct (Hok eq_refl) as (n1 & n2 & n4 & -> & H1' & H2' & H4' & Hid & Hex & Ho2 & _). clear Hok.
+  unfold post. rewrite Hs, Hsv.
+  pose proof (L0ok_flags _ _ H0) as [Hs0 Hf0]. pose proof (L4ok_flags _ _ H4') as Hs4.
+  unfold exrel in Hex. destruct n2 as [z|]; [|contradiction].
+  destruct Hex as (Iz & Az & F1 & F2 & F3 & F4 & F5 & F6 & Hstz & Hflz).
+  assert (Sk1' : skid1 y1 z) by (unfold skid1; repeat split; try assumption; congruence).
+  assert (Sk0' : skid0 m0 n1 /\ nonempty n1 = nonempty l1).
+  { unfold skid0, idrel in *. destruct m0 as [m|], n1 as [z1|], l1 as [x|]; try contradiction; [|split; [exact Logic.I|reflexivity]].
+    destruct Sk0 as (Em & _ & _). destruct Hid as [Hi Ha]. repeat split; assumption. }
+  destruct Sk0' as [Sk0' Ho1].
+  rewrite <- Hims in H0, H1', H2', H4', Him.
+  destruct Hd as [-> | ->].
+  - (* first drain cycle: the WB input is occupied, the ecall cannot fire *)
+    rewrite (stall_part_first _ _ _ _ _ (new_stall_ignored_2 l0 n1 (Some z) None n4 _ Hs0 eq_refl Hs4)).
+    assert (Hbz : sl_stall z = true).
+    { rewrite Hstz, Iy. unfold ex_busy. rewrite Sy. destruct l3 as [w|]; [reflexivity|]. exfalso; apply (Hd2 eq_refl); reflexivity. }
+    destruct (first_flush [l0; n1; Some z; None; n4]) as [[i a]|] eqn:Hff.
+    + eapply shape_flush; try eassumption; [exact Logic.I|]. right; split; [reflexivity|]. apply Hflz; exact Hbz.
+    + rewrite flush_part_none by exact Hff.
+      eapply shape_intro; [reflexivity|..]; cbn [pst stalled saved]; try assumption; [exact Logic.I|].
+      rewrite Hims, Hpc. unfold ModeInv. split; [right; reflexivity|]. right. split; [reflexivity|].
+      exists m0, y1, z. split; [reflexivity|]. split; [exact Sk0'|]. split; [reflexivity|]. split; [exact Sk1'|].
+      rewrite Ho1. split; [exact N1|]. split; [exact N2|]. split; [intros E; discriminate E|reflexivity].
+  - rewrite (stall_part_last _ _ _ _ _ (new_stall_ignored_2 l0 n1 (Some z) None n4 _ Hs0 eq_refl Hs4)).
+    destruct (first_flush [l0; n1; Some z; None; n4]) as [[i a]|] eqn:Hff.
+    + eapply shape_flush; try eassumption; [exact Logic.I|reflexivity].
+    + rewrite flush_part_none by exact Hff.
+      eapply shape_intro; [reflexivity|..]; cbn [pst stalled saved]; try assumption; [exact Logic.I|].
+      rewrite Hims, Hpc. unfold ModeInv. cbn [nonempty]. rewrite Ho1. split; [exact N1|].
+      split; [exact N2|apply no101_c0].
+Qed.
+
+(** * The invariant is inductive *)
+Theorem shape_step p : fetch_faithful -> Shape p -> Shape (fst (pipe_step p)).
+Proof.
+  intros FF Sh. destruct (stalled p) as [[k d]|] eqn:Hs.
+  - pose proof (sh_mode _ Sh) as Hm. rewrite Hs in Hm. unfold ModeInv in Hm.
+    destruct (saved p); [|contradiction]. destruct Hm as [_ [[-> _]|[-> _]]].
+    + eapply shape_step_stall1; eauto.
+    + eapply shape_step_stall2; eauto.
+  - apply shape_step_normal; assumption.
+Qed.
+
+(** * Reachability *)
+Fixpoint pipe_iter (n : nat) (p : pstate) : pstate :=
+  match n with O => p | S k => pipe_iter k (fst (pipe_step p)) end.
+
+Theorem shape_iter n : forall p, fetch_faithful -> Shape p -> Shape (pipe_iter n p).
+Proof. induction n as [|n IH]; intros p FF Sh; cbn [pipe_iter]; [exact Sh|]. apply IH; [exact FF|]. apply shape_step; assumption. Qed.
+
+Theorem shape_run fuel : forall p, fetch_faithful -> Shape p -> Shape (fst (pipe_run fuel p)).
+Proof.
+  induction fuel as [|k IH]; intros p FF Sh; cbn [pipe_run]; [exact Sh|].
+  destruct (pipe_done p); [exact Sh|].
+  pose proof (shape_step p FF Sh) as Sh'. destruct (pipe_step p) as [p' [f|]]; cbn [fst] in *; [exact Sh'|].
+  apply IH; assumption.
+Qed.
+
+(** * Reading the invariant *)
+
+(* stall register and skid registers *)
+Theorem shape_stalled p : Shape p ->
+  (stalled p = None /\ saved p = None) \/
+  exists k d sv, stalled p = Some (k, d) /\ saved p = Some sv /\ (k = 1 \/ k = 2) /\ (d = 2 \/ d = 1) /\
+                 Z.of_nat (length sv) = k.
+Proof.
+  intros Sh. pose proof (sh_mode _ Sh) as Hm. unfold ModeInv in Hm.
+  destruct (stalled p) as [[k d]|], (saved p) as [sv|]; try contradiction.
+  - right. exists k, d, sv. destruct Hm as [Hd [(-> & m & x1 & -> & _)|(-> & m0 & y1 & x2 & -> & _)]];
+      repeat split; auto.
+  - left; split; reflexivity.
+Qed.
+
+Corollary shape_saved_iff p : Shape p -> (saved p = None <-> stalled p = None).
+Proof.
+  intros Sh. destruct (shape_stalled p Sh) as [[-> ->]|(k & d & sv & -> & -> & _)]; split; intros H; try reflexivity; discriminate.
+Qed.
+
+(* flags *)
+Theorem shape_flags p : Shape p ->
+  (forall j x, 0 <= j -> lat_at (lat p) j = Some x -> j <= 4 /\ sl_saved x = false /\
+     real (prog (im (pst p))) x /\
+     (sl_stall x = true -> j = 1 \/ j = 2) /\
+     (sl_flush x <> None -> j = 2 \/ j = 3 \/ j = 4) /\
+     (sl_exit x <> None -> sl_instr x = IEcall /\ sl_flush x = Some (sl_addr x + 4))) /\
+  has_stall (lat_at (lat p) 0) = false /\ flush_of (lat_at (lat p) 0) = None /\
+  flush_of (lat_at (lat p) 1) = None.
+Proof.
+  intros Sh. destruct (shape_elim _ Sh) as (l0 & l1 & l2 & l3 & l4 & Hl & Him & H0 & H1 & H2 & H3 & H4 & Hm).
+  rewrite Hl. lat5. pose proof (L0ok_flags _ _ H0) as [Hs0 Hf0]. pose proof (L1ok_flags _ _ H1) as Hf1.
+  split; [|repeat split; assumption].
+  intros j x Hj0 Hx. unfold lat_at, nthZ in Hx.
+  destruct (Z.to_nat j) as [|[|[|[|[|n]]]]] eqn:Hj; cbn [nth] in Hx.
+  - subst l0. destruct H0 as [R E]. rewrite E. cbn [slot_if sl_saved sl_stall sl_flush sl_exit].
+    rewrite <- E. repeat split; try lia; try assumption; try discriminate; try congruence.
+  - subst l1. destruct H1 as (R & F & S & E). rewrite F, S, E. repeat split; try lia; try assumption; try congruence.
+  - subst l2. destruct H2 as (R & S & F & E & St). rewrite S, F. unfold wb_flush.
+    repeat split; try lia; try assumption; auto.
+    + apply E. assumption.
+    + destruct (sl_exit x); [reflexivity|congruence].
+  - subst l3. destruct H3 as (R & S & St & E). rewrite S, St.
+    repeat split; try lia; try assumption; auto; try discriminate; apply E; assumption.
+  - subst l4. destruct H4 as (R & S & St & F & E). rewrite S, St, F. unfold wb_flush.
+    repeat split; try lia; try assumption; auto; try discriminate.
+    + apply E. assumption.
+    + destruct (sl_exit x); [reflexivity|congruence].
+  - destruct n; discriminate Hx.
+Qed.
+
+(* addresses: slots hold real program instructions *)
+Theorem shape_addresses p j x : Shape p -> 0 <= j -> lat_at (lat p) j = Some x ->
+  instr_at (prog (im (pst p))) (sl_addr x) = Some (sl_instr x) /\
+  0 <= sl_addr x < 4 * Z.of_nat (length (prog (im (pst p)))) /\ sl_addr x mod 4 = 0.
+Proof.
+  intros Sh Hj Hx. destruct (shape_flags p Sh) as [H _]. destruct (H j x Hj Hx) as (_ & _ & R & _).
+  split; [exact R|]. apply real_instr_at; exact R.
+Qed.
+
+(* the program never changes *)
+Theorem prog_constant p : prog (im (pst (fst (pipe_step p)))) = prog (im (pst p)).
+Proof.
+  rewrite pipe_step_eq. destruct (run_stages (bump p)) as [[next s] f] eqn:Hr.
+  apply run_stages_law in Hr. destruct Hr as (_ & _ & _ & _ & _ & Hp & _).
+  destruct f as [f|]; cbn [fst faulted pst]; [exact Hp|]. rewrite post_pst. unfold flush_st, stall_st.
+  destruct (first_flush next) as [[i a]|]; destruct (new_stall next (stalled p)); exact Hp.
+Qed.
+
+(* skid consistency, as stated for the reader *)
+Theorem shape_skid1 p d : Shape p -> stalled p = Some (1, d) ->
+  exists i a x1, saved p = Some [Some (saved_if i a)] /\ lat_at (lat p) 1 = Some x1 /\
+    sl_instr x1 = i /\ sl_addr x1 = a /\ (d = 1 -> lat_at (lat p) 2 = None).
+Proof.
+  intros Sh Hs. pose proof (sh_mode _ Sh) as Hm. rewrite Hs in Hm. unfold ModeInv in Hm.
+  destruct (saved p) as [svl|]; [|contradiction].
+  destruct Hm as [Hd [(_ & m & x1 & -> & Hl1 & Em & Hi & Ha & _ & Hd1)|(Hk & _)]]; [|discriminate Hk].
+  exists (sl_instr m), (sl_addr m), x1. rewrite <- Em. repeat split; assumption.
+Qed.
+
+Theorem shape_skid2 p d : Shape p -> stalled p = Some (2, d) ->
+  exists m0 y1 x2, saved p = Some [m0; Some y1] /\ skid0 m0 (lat_at (lat p) 1) /\
+    lat_at (lat p) 2 = Some x2 /\ skid1 y1 x2 /\
+    (d = 2 -> lat_at (lat p) 3 <> None) /\ (d = 1 -> lat_at (lat p) 3 = None).
+Proof.
+  intros Sh Hs. pose proof (sh_mode _ Sh) as Hm. rewrite Hs in Hm. unfold ModeInv in Hm.
+  destruct (saved p) as [svl|]; [|contradiction].
+  destruct Hm as [Hd [(Hk & _)|(_ & m0 & y1 & x2 & -> & Sk0 & Hl2 & Sk1 & _ & _ & Hd2 & Hd1)]]; [discriminate Hk|].
+  exists m0, y1, x2. repeat split; assumption.
+Qed.
+
+(** * Bubbles come in pairs *)
+
+(* static form: in a reachable non-stalled state no SINGLE bubble is enclosed by two
+   instructions — neither between latches (IF,ID,EX), (ID,EX,MEM), nor between the instruction
+   about to be fetched and latches (IF, ID).  (Bubbles enter only through an interlock or an
+   ecall drain — two cycles each — or through a flush, which empties at least latches IF and ID
+   and, with the fetch bubble of a program that ran off its end, only ever makes runs longer.) *)
+Theorem bubbles_come_in_pairs p : Shape p -> stalled p = None ->
+  let o j := nonempty (lat_at (lat p) j) in
+  ~ (has_instr (im (pst p)) (pc (pst p)) = true /\ o 0 = false /\ o 1 = true) /\
+  ~ (o 0 = true /\ o 1 = false /\ o 2 = true) /\
+  ~ (o 1 = true /\ o 2 = false /\ o 3 = true).
+Proof.
+  intros Sh Hs. cbv zeta. pose proof (sh_mode _ Sh) as Hm. rewrite Hs in Hm. unfold ModeInv in Hm.
+  destruct (saved p); [contradiction|]. destruct Hm as (N1 & N2 & N3). unfold no101 in *.
+  repeat split; intros (A & B & C); rewrite A, B, C in *; discriminate.
+Qed.
+
+(* dynamic form for the ecall drain: in the first drain cycle the WB input is still occupied, so
+   the saved ecall is busy and does not fire; it fires (once) in the second drain cycle *)
+Theorem ecall_drain_guard p : Shape p -> stalled p = Some (2, 2) ->
+  exists y1, sv_at p 1 = Some y1 /\ sl_instr y1 = IEcall /\
+    ex_busy y1 (lat_at (lat p) 2) (lat_at (lat p) 3) = true.
+Proof.
+  intros Sh Hs. destruct (shape_skid2 p 2 Sh Hs) as (m0 & y1 & x2 & Hsv & _ & _ & Sk1 & Hd2 & _).
+  exists y1. unfold sv_at. rewrite Hsv. split; [reflexivity|]. destruct Sk1 as (Iy & Sy & _).
+  split; [exact Iy|]. unfold ex_busy. rewrite Sy. destruct (lat_at (lat p) 3); [reflexivity|].
+  exfalso; apply (Hd2 eq_refl); reflexivity.
+Qed.
+
+Theorem ecall_drain_fires p : Shape p -> stalled p = Some (2, 1) ->
+  exists y1, sv_at p 1 = Some y1 /\ sl_instr y1 = IEcall /\
+    ex_busy y1 (lat_at (lat p) 2) (lat_at (lat p) 3) = false.
+Proof.
+  intros Sh Hs. destruct (shape_skid2 p 1 Sh Hs) as (m0 & y1 & x2 & Hsv & _ & _ & Sk1 & _ & Hd1).
+  exists y1. unfold sv_at. rewrite Hsv. split; [reflexivity|]. destruct Sk1 as (Iy & Sy & _).
+  split; [exact Iy|]. unfold ex_busy. rewrite Sy, (Hd1 eq_refl). reflexivity.
+Qed.
+
 End WithIM.
+
+(** * The instance without instruction cache *)
+Definition no_icache (m : imem) : Prop := icc m = None.
+
+Lemma no_icache_faithful : fetch_faithful no_icache.
+Proof.
+  unfold fetch_faithful, no_icache. intros m a oi m' pen Hm Hr.
+  apply im_read_law in Hr. destruct Hr as [_ Hr]. rewrite Hm in Hr. destruct Hr as (-> & _ & ->).
+  split; [exact Hm|reflexivity].
+Qed.
